@@ -7,7 +7,7 @@
 //! KIND  := struct | tuple | union | enum
 //! GEN   := plain | generic
 //! attr  := ( hint* )                      one `#[repr(...)]` attribute
-//! hint  := C | transparent | packed | packedN | alignN | u8 | i8 | u16 | ... | isize
+//! hint  := Rust | C | transparent | packed | packedN | alignN | u8 | i8 | u16 | ... | isize
 //! body  := ( fields fty* )                 KIND != enum, MAC != unsized
 //!        | ( fields fty* ) ( tail uty+ )   MAC = unsized|unsizednp (KIND struct|tuple)
 //!        | ( variants ( fty* )* )          KIND = enum
@@ -101,6 +101,7 @@ fn parse_n(s: &str) -> Option<u32> {
 
 pub fn hint_ok(h: &str) -> bool {
     h == "C"
+        || h == "Rust"
         || h == "transparent"
         || h == "packed"
         || INT_HINTS.contains(&h)
